@@ -294,14 +294,12 @@ def explainer_driven(run, rnd, n_cfg):
             else:
                 sc = BatchScenario(which, seed, rnd)
                 kind, tg = ("interval" if which == "interval" else "batch"), True
-                cap = sc.e._storage.size if which == "interval" and hasattr(sc.e._storage, "size") else (3 if seed % 3 else 16)
-                if which == "batch":
-                    cap = 10 ** 9
+                cap = sc.capacity
                 steps = 12 if which == "batch" else 3 * cap + 4
         except Exception as ex:
             run.other_error(f"C15:construct:{type(ex).__name__}")
             continue
-        st = sc.storage if which in ("sage", "pfi") else sc.e._storage if hasattr(sc.e, "_storage") else None
+        st = sc.storage
         if st is None:
             continue
         arrivals = []
